@@ -19,7 +19,9 @@ Definition discr_consistent (tf : list (N * string)) (d : list (string * N)) : b
 Definition tables_statement : Prop :=
   Tables.boxtype_macro_canonical = true
   /\ table_ok Tables.boxtype_table = true
-  /\ same_set_sn Tables.boxtype_table iso_boxtype_table = true
+  (* every assignment of the standard's table is in the source's table (which may name further box types: the property asks
+     for losslessness over all codes — [boxtype_code_lossless] — not for a closed list of variants) *)
+  /\ incl_sn iso_boxtype_table Tables.boxtype_table = true
   /\ same_map_ns Tables.AudioObjectType_tryfrom iso_audio_object_types = true
   /\ discr_consistent Tables.AudioObjectType_tryfrom Tables.AudioObjectType_discr = true
   /\ same_map_ns Tables.SampleFreqIndex_tryfrom (map (fun e => (fst (fst e), snd (fst e))) iso_sample_freq) = true
@@ -59,8 +61,7 @@ Theorem boxtype_of_code_is_iso : forall n c, In (n, c) iso_boxtype_table ->
 Proof.
   intros n c Hin.
   assert (H : table_ok Tables.boxtype_table = true) by (vm_compute; reflexivity).
-  assert (S : same_set_sn Tables.boxtype_table iso_boxtype_table = true) by (vm_compute; reflexivity).
-  unfold same_set_sn in S. apply andb_true_iff in S as [_ S].
+  assert (S : incl_sn iso_boxtype_table Tables.boxtype_table = true) by (vm_compute; reflexivity).
   apply (incl_sn_In _ _ _ S) in Hin.
   exists (boxtype_of_u32 c). split; [reflexivity|]. split; [|apply (u32_boxtype_u32 H)].
   unfold boxtype_of_u32.
